@@ -351,7 +351,11 @@ def _own(func):
 
 def _local_assignments(func):
     """name -> list of value expressions (None = loop target / with / except / unpacking: a source of its own)"""
+    cached = getattr(func, '_c13_la', None)
+    if cached is not None:
+        return cached
     out = {}
+    func._c13_la = out
     for n in _own(func):
         if isinstance(n, ast.Assign):
             for t in n.targets:
@@ -419,6 +423,40 @@ def sources(expr, func, stop=frozenset()):
             else:
                 todo.extend(_names_of(v))
     return out
+
+
+def _clone(node, mapping=None):
+    """structural copy of an expression (without the loader's parent links); Names in `mapping` are replaced"""
+    if isinstance(node, ast.Name) and mapping and node.id in mapping and isinstance(node.ctx, ast.Load):
+        return _clone(mapping[node.id])
+    if isinstance(node, ast.AST):
+        new = type(node)()
+        for fld, val in ast.iter_fields(node):
+            setattr(new, fld, _clone(val, mapping))
+        for a in ('lineno', 'col_offset', 'end_lineno', 'end_col_offset'):
+            if hasattr(node, a):
+                setattr(new, a, getattr(node, a))
+        return new
+    if isinstance(node, list):
+        return [_clone(x, mapping) for x in node]
+    return node
+
+
+def _inline(expr, func, stop=frozenset(), depth=5):
+    """copy of expr with every local of `func` that has exactly one assignment (a helper local) replaced by the assigned
+    expression, recursively; names in `stop`, parameters, loop variables and re-assigned locals are left alone"""
+    if depth == 0:
+        return _clone(expr)
+    la = _local_assignments(func)
+    mapping = {}
+    for nm in _names_of_raw(expr):
+        vs = la.get(nm)
+        if nm in stop or not vs or len(vs) != 1 or vs[0] is None:
+            continue
+        if nm in _names_of_raw(vs[0]):
+            continue
+        mapping[nm] = _inline(vs[0], func, stop, depth - 1)
+    return _clone(expr, mapping)
 
 
 def _ambient(mod, func):
@@ -632,6 +670,10 @@ def rule_dedup(repo):
                 if on_path and _is_module_state(m, func, D):
                     r.observations.append(f"{rel}: {q}: module-level table `{norm(D)}` is consulted while a name is computed: "
                                           f"its entries survive from one translation to the next")
+                if on_path and isinstance(K, ast.Name):
+                    kv = [v for v in _local_assignments(func).get(K.id, []) if v is not None]
+                    if len(kv) == 1 and isinstance(kv[0], ast.Name) and kv[0].id in [a.arg for a in func.args.args]:
+                        K = kv[0]
                 if on_path or lossy_attr:
                     # a cache consulted while a NAME is computed: a stale or aliased entry silently renames hardware.
                     # Accepted only when the key is the object itself and the value is a function of it.
@@ -819,9 +861,10 @@ def _hash_facts(r, m, func, qual, suffix_sources, keep_names, what):
     if len(ups) != 1 or len(ups[0].args) != 1:
         r.bad(m, qual, f"{hname}.update(...)", f"{what}: expected exactly one update of the digest with the suffix", h.lineno)
     else:
-        arg = ups[0].args[0]
-        cons = norm(ups[0])
-        src = sources(arg, func)
+        keepset = {k for k in keep_names if k.isidentifier()}
+        arg = _inline(ups[0].args[0], func, stop=set(suffix_sources) | keepset | {hname})
+        cons = f"{hname}.update({norm(arg)})"
+        src = sources(arg, func, stop=set(suffix_sources) | keepset)
         okslice = True
         for s_ in ast.walk(arg):
             if isinstance(s_, ast.Subscript) and isinstance(s_.slice, ast.Slice):
@@ -857,17 +900,21 @@ def _hash_facts(r, m, func, qual, suffix_sources, keep_names, what):
         keeps = any(k in src for k in keep_names) or any(k in txt for k in keep_names)
         # symbolic shape of the name: readable parts + digest(input).  A readable part that is cut (slice / split / %)
         # loses information; that is only harmless if the digest input is the complete, uncut full name
-        exprs = [x.value] + [v for nm in _names_of(x.value) if nm != hname
-                             for v in _local_assignments(func).get(nm, []) if v is not None]
+        keepset = {k for k in keep_names if k.isidentifier()}
+        full_ret = _inline(x.value, func, stop=set(suffix_sources) | keepset | {hname})
         cut = []
-        for ex in exprs:
-            for y in ast.walk(ex):
-                if isinstance(y, ast.Subscript) and isinstance(y.slice, ast.Slice) and \
-                        not any(isinstance(z, ast.Attribute) and z.attr in ('hexdigest', 'digest') for z in ast.walk(y.value)) \
-                        and hname not in sources(y.value, func, stop={hname}):
+        for y in ast.walk(full_ret):
+            if isinstance(y, ast.Subscript) and isinstance(y.slice, ast.Slice) and \
+                    not any(isinstance(z, ast.Attribute) and z.attr in ('hexdigest', 'digest') for z in ast.walk(y.value)) \
+                    and hname not in _names_of_raw(y.value):
+                lo = y.slice.lower
+                drops_kept_prefix = y.slice.upper is None and y.slice.step is None and isinstance(lo, ast.Call) and \
+                    norm(lo.func) == 'len' and lo.args and norm(lo.args[0]) in keepset
+                if not drops_kept_prefix:
                     cut.append(y)
         digest_complete = len(ups) == 1 and len(ups[0].args) == 1 and not any(
-            isinstance(z, ast.Subscript) for z in ast.walk(ups[0].args[0]))
+            isinstance(z, ast.Subscript) for z in ast.walk(
+                _inline(ups[0].args[0], func, stop=set(suffix_sources) | keepset | {hname})))
         if cut and not digest_complete:
             r.bad(m, qual, f"return {txt}"[:120],
                   f"{what}: the readable part `{norm(cut[0])}` is truncated but the digest input "
@@ -1131,13 +1178,15 @@ def _param_flow(r, repo):
             raise AnalysisError(f"Component._construct: `{v}` is never assigned")
         bad = None
         for a in assigns:
-            if is_field(a.value, attr):
+            aval = _inline(a.value, f, stop={v})
+            if is_field(aval, attr):
                 continue                       # alias: in-place merges are visible to the name computation
-            pure_copy = isinstance(a.value, ast.Call) and (
-                (isinstance(a.value.func, ast.Attribute) and a.value.func.attr == 'copy' and is_field(a.value.func.value, attr)
-                 and not a.value.args) or
-                (isinstance(a.value.func, ast.Name) and a.value.func.id == 'dict' and len(a.value.args) == 1 and
-                 not a.value.keywords and is_field(a.value.args[0], attr)))
+            a_value = aval
+            pure_copy = isinstance(a_value, ast.Call) and (
+                (isinstance(a_value.func, ast.Attribute) and a_value.func.attr == 'copy' and is_field(a_value.func.value, attr)
+                 and not a_value.args) or
+                (isinstance(a_value.func, ast.Name) and a_value.func.id == 'dict' and len(a_value.args) == 1 and
+                 not a_value.keywords and is_field(a_value.args[0], attr)))
             if pure_copy and not mutated:
                 continue                       # an unmodified copy has the same content
             # a separate dictionary that receives the parameter-tree values: must be stored back before construct()
@@ -1169,7 +1218,6 @@ VPLACEHOLDER = 'pymtl3/passes/backends/verilog/VerilogPlaceholderPass.py'
 def _placeholder_name(r, repo):
     """the wrapper module of a placeholder is named by get_component_unique_name(<its RTLIR>) whenever construct() has
     parameters; the decision is evaluated over {cfg.params empty / not} x {irepr.get_params() empty / not}"""
-    from sa.astutil import subst
     m = repo.mod(VPLACEHOLDER)
     f = m.get_func('VerilogPlaceholderPass.setup_default_configs')
     chains = [n for n in _own(f) if isinstance(n, ast.If) and n.orelse and
@@ -1184,7 +1232,7 @@ def _placeholder_name(r, repo):
         mp = {nm: vs[0] for nm, vs in la.items() if len(vs) == 1 and vs[0] is not None and nm in _names_of(test)}
         if not mp:
             break
-        test = subst(test, mp)
+        test = _clone(test, mp)
     rparam = f.args.args[-1].arg
 
     def value_of(blk):
@@ -1476,9 +1524,11 @@ def _wrapper_guard(r, repo, scope):
             cons = f"wrapper emitted under {_key_desc(name, f) if not isinstance(name, ast.Name) else 'the chosen module name'}"
             nm = norm(name)
             relevant = []
-            for g in guards_of(e):
-                if g.kind not in ('if', 'exit', 'assert') or g.test is None:
+            from sa.astutil import Guard
+            for g0 in guards_of(e):
+                if g0.kind not in ('if', 'exit', 'assert') or g0.test is None:
                     continue
+                g = Guard(_inline(g0.test, f, stop={nm}), g0.polarity, g0.kind, g0.node)
                 leaves = [x for x in ast.walk(g.test) if isinstance(x, (ast.Name, ast.Attribute))]
                 if any(norm(x) == nm for x in leaves) and any(isinstance(x, ast.Attribute) and x.attr == 'top_module' for x in leaves):
                     relevant.append(g)
@@ -1917,6 +1967,19 @@ class _Reserved:
         self.memo = {}
         self.why = {}
 
+    def aliases(self, f, p):
+        """p and the helper locals that are plain copies of it (`name = id_`)"""
+        out = {p}
+        la = _local_assignments(f)
+        changed = True
+        while changed:
+            changed = False
+            for nm, vs in la.items():
+                if nm not in out and len(vs) == 1 and isinstance(vs[0], ast.Name) and vs[0].id in out:
+                    out.add(nm)
+                    changed = True
+        return out
+
     def covered(self, f, p):
         key = (id(f), p)
         if key in self.memo:
@@ -1929,10 +1992,13 @@ class _Reserved:
 
     def event(self, node, f, p):
         me = f.args.args[0].arg if f.args.args else None
+        al = self.aliases(f, p)
         for c in ast.walk(node):
             if not isinstance(c, ast.Call) or not isinstance(c.func, ast.Attribute):
                 continue
-            if c.func.attr in ('check_decl',) and c.args and isinstance(c.args[0], ast.Name) and c.args[0].id == p:
+            if c.func.attr in ('check_decl',) and (
+                    (c.args and isinstance(c.args[0], ast.Name) and c.args[0].id in al) or
+                    any(isinstance(k.value, ast.Name) and k.value.id in al and k.arg in ('name', 'id_') for k in c.keywords)):
                 return True
             recv = c.func.value
             is_super = isinstance(recv, ast.Call) and norm(recv.func) == 'super'
@@ -1943,33 +2009,59 @@ class _Reserved:
                 cands = [x for x in cands if x[2] is not f and x[1] is not enclosing(f, (ast.ClassDef,))]
             if not cands:
                 continue
-            for i, a in enumerate(c.args):
-                if isinstance(a, ast.Name) and a.id == p:
-                    good = True
-                    for m2, c2, g in cands:
-                        params = [x.arg for x in g.args.args][1:]
-                        if i >= len(params) or not self.covered(g, params[i]):
-                            good = False
-                            self.why[(id(f), p)] = f"{c.func.attr}"
-                    if good:
-                        return True
+            passed = [(i, None) for i, a in enumerate(c.args) if isinstance(a, ast.Name) and a.id in al] + \
+                     [(None, k.arg) for k in c.keywords if k.arg and isinstance(k.value, ast.Name) and k.value.id in al]
+            for i, kwname in passed:
+                good = True
+                for m2, c2, g in cands:
+                    params = [x.arg for x in g.args.args][1:]
+                    q = kwname if kwname is not None else (params[i] if i < len(params) else None)
+                    if q is None or q not in params or not self.covered(g, q):
+                        good = False
+                        self.why[(id(f), p)] = f"{c.func.attr}"
+                if good:
+                    return True
         return False
 
-    @staticmethod
-    def used(node, p):
+    def used(self, node, p, f=None):
+        al = self.aliases(f, p) if f is not None else {p}
         for n in ast.walk(node):
-            if isinstance(n, ast.Name) and n.id == p and isinstance(n.ctx, ast.Load):
+            if isinstance(n, ast.Name) and n.id in al and isinstance(n.ctx, ast.Load):
                 par = parent(n)
+                if isinstance(par, ast.Assign) and len(par.targets) == 1 and isinstance(par.targets[0], ast.Name) and \
+                        par.targets[0].id in al:
+                    continue             # the alias definition itself
                 if isinstance(par, (ast.Call, ast.keyword, ast.Return, ast.Dict, ast.List, ast.Tuple, ast.Assign, ast.Starred)):
                     return True
         return False
+
+    def inline_check(self, st, f, p):
+        """`if <...>.is_verilog_reserved(p): raise ...` written out instead of check_decl"""
+        al = self.aliases(f, p)
+        if not isinstance(st, ast.If):
+            return False
+        t, pos = st.test, True
+        while isinstance(t, ast.UnaryOp) and isinstance(t.op, ast.Not):
+            t, pos = t.operand, not pos
+        if not (isinstance(t, ast.Call) and norm(t.func).split('.')[-1] in ('is_verilog_reserved', '_is_verilog_reserved')
+                and t.args and isinstance(t.args[0], ast.Name) and t.args[0].id in al):
+            if not (isinstance(t, ast.Compare) and len(t.ops) == 1 and isinstance(t.ops[0], (ast.In, ast.NotIn)) and
+                    isinstance(t.left, ast.Name) and t.left.id in al and 'reserved' in norm(t.comparators[0])):
+                return False
+            if isinstance(t.ops[0], ast.NotIn):
+                pos = not pos
+        blk = st.body if pos else st.orelse
+        return bool(blk) and always_exits(blk) and any(isinstance(x, ast.Raise) for b in blk for x in ast.walk(b))
 
     def walk(self, stmts, f, p, state):
         """-> (no path returned un-checked while using p, state at the end or None when every path left)"""
         cov, used = state
         for st in stmts:
+            if isinstance(st, ast.If) and self.inline_check(st, f, p):
+                cov = True
+                continue
             if isinstance(st, ast.If):
-                used = used or self.used(st.test, p)
+                used = used or self.used(st.test, p, f)
                 ok1, s1 = self.walk(st.body, f, p, (cov, used))
                 ok2, s2 = self.walk(st.orelse, f, p, (cov, used))
                 if not (ok1 and ok2):
@@ -1985,7 +2077,7 @@ class _Reserved:
             elif isinstance(st, ast.Return):
                 if st.value is not None:
                     cov = cov or self.event(st.value, f, p)
-                    used = used or self.used(st, p)
+                    used = used or self.used(st, p, f)
                 return (cov or not used), None
             elif isinstance(st, ast.Raise):
                 return True, None
@@ -1993,7 +2085,7 @@ class _Reserved:
                 ok, s_ = self.walk(st.body, f, p, (cov, used))
                 if not ok:
                     return False, None
-                used = used or (s_ is not None and s_[1]) or self.used(st.iter if isinstance(st, ast.For) else st.test, p)
+                used = used or (s_ is not None and s_[1]) or self.used(st.iter if isinstance(st, ast.For) else st.test, p, f)
             elif isinstance(st, ast.Try):
                 ok, s_ = self.walk(st.body, f, p, (cov, used))
                 if not ok:
@@ -2016,7 +2108,7 @@ class _Reserved:
             else:
                 if not cov and self.event(st, f, p):
                     cov = True
-                used = used or self.used(st, p)
+                used = used or self.used(st, p, f)
         return True, (cov, used)
 
 
@@ -2311,6 +2403,43 @@ EQUIV = [
        '        f"`ifndef {cfg.dependency_guard_symbol}\\n"',
        '        f"`ifndef {cfg.dependency_guard_symbol}_{__import__(\'zlib\').crc32(cfg.pickled_orig_file.encode()) & 0xffffffff:08X}\\n"',
        None),
+    _m('digest-input-through-helper-local', VUTIL, "  param_hash.update(full_name[len(comp_name):].encode('ascii'))",
+       "  param_str = full_name[len(comp_name):]\n  param_hash.update(param_str.encode('ascii'))", None),
+    _m('digest-input-through-two-helper-locals', VUTIL, "  param_hash.update(full_name[len(comp_name):].encode('ascii'))",
+       "  n_cls = len(comp_name)\n  param_str = full_name[n_cls:]\n  raw = param_str.encode('ascii')\n  param_hash.update(raw)", None),
+    _m('hashed-name-through-helper-locals', VUTIL, '  return comp_name + "__" + param_name',
+       '  sep = "__"\n  mangled = comp_name + sep + param_name\n  return mangled', None),
+    _m('struct-eq-early-return', RDTYPE, "    return isinstance(u, Struct) and s.get_full_name() == u.get_full_name()",
+       "    if not isinstance(u, Struct):\n      return False\n    mine = s.get_full_name()\n    return mine == u.get_full_name()", None),
+    _m('struct-hash-through-helper-local', RDTYPE, "    return hash((type(s), s.get_full_name()))",
+       "    key = (type(s), s.get_full_name())\n    return hash(key)", None),
+    _m('yosys-wire-check-on-alias-flipped-if', YTRANS + 'structural/YosysStructuralTranslatorL2.py',
+       """    if isinstance( dtype, rdt.Struct ):
+      s.check_decl( id_, "" )
+      return s.wire_struct_gen( id_, dtype, n_dim )
+    elif isinstance( dtype, rdt.PackedArray ):""",
+       """    name = id_
+    if not isinstance( dtype, ( rdt.Struct, rdt.PackedArray ) ):
+      return super().wire_dtype_gen( name, dtype, n_dim )
+    if isinstance( dtype, rdt.Struct ):
+      s.check_decl( name, "" )
+      return s.wire_struct_gen( name, dtype, n_dim )
+    elif isinstance( dtype, rdt.PackedArray ):""", None),
+    _m('verilog-wire-check-written-out', VSL1,
+       "      template = \"Note: {n_dim} array of wires {id_} has data type {_dtype}\"\n    s.check_decl( id_, template.format( **locals() ) )",
+       "      template = \"Note: {n_dim} array of wires {id_} has data type {_dtype}\"\n"
+       "    if s.is_verilog_reserved( id_ ):\n      raise VerilogReservedKeywordError( id_, template.format( **locals() ) )", None),
+    _m('wrapper-name-guard-through-helper-local', VSL1,
+       "        if module_name == ph_cfg.top_module:\n          raise VerilogPlaceholderError(m,",
+       "        clash = module_name == ph_cfg.top_module\n        if clash:\n          raise VerilogPlaceholderError(m,", None),
+    _m('construct-kwargs-through-helper-local', COMPONENT,
+       "      else:\n        kwargs = s._dsl.kwargs\n        if \"construct\" in s._dsl.param_tree.leaf:",
+       "      else:\n        recorded = s._dsl.kwargs\n        kwargs = recorded\n        if \"construct\" in s._dsl.param_tree.leaf:", None),
+    _m('placeholder-decision-flipped', VPLACEHOLDER,
+       "      if has_params:\n        cfg.pickled_top_module = get_component_unique_name( irepr )\n      else:\n"
+       "        cfg.pickled_top_module = f\"{irepr.get_name()}_noparam\"",
+       "      if not has_params:\n        cfg.pickled_top_module = f\"{irepr.get_name()}_noparam\"\n      else:\n"
+       "        cfg.pickled_top_module = get_component_unique_name( irepr )", None),
     _m('local-renamed-in-unique-name', VUTIL, "  param_name = param_hash.hexdigest()\n  return comp_name + \"__\" + param_name",
        "  digest = param_hash.hexdigest()\n  return comp_name + \"__\" + digest", None),
 ]
